@@ -382,6 +382,10 @@ def check_C10(ctx):
     sh2, _ = snap_trace(ctx, "own-revs", "own-revs", 2, 2, 5, 15000 if q else 0, ["P_C10"], 11)
     sh3, _ = snap_trace(ctx, "history", "history", 2, 2, 5, 20000 if q else 400000, ["P_C10"], 12)
     snap_trace(ctx, "adopt", "adopt", 2, 2, 5, 0, ["P_C10"], 14)        # several orphans at once: enumerated completely
+    # "objects read from caches are left unmodified" where the controller works on copies it re-reads: identity and
+    # storage repairs with API failures (conflict retries in particular), also with the cache entry vanishing
+    snap_trace(ctx, "faults-claims", "faults-claims", 2, 2, 5, 20000 if q else 300000, ["P_C10"], 15)
+    snap_trace(ctx, "evict-claims", "evict-claims", 2, 2, 5, 10000 if q else 200000, ["P_C10"], 16)
     if not q:
         snap_trace(ctx, "own-pods3", "own-pods3", 2, 2, 5, 300000, ["P_C10"], 13)
         ctx.exhaustive = True
